@@ -500,6 +500,20 @@ func (s *InMemoryStore) FetchConsumerOffset(ctx context.Context, group, topic st
 	return s.consumerOffsets[key], s.consumerMeta[key], nil
 }
 
+// HasConsumerOffset reports whether an offset was ever committed for the
+// group/topic/partition (FetchConsumerOffset answers 0 for a missing commit).
+func (s *InMemoryStore) HasConsumerOffset(ctx context.Context, group, topic string, partition int32) (bool, error) {
+	select {
+	case <-ctx.Done():
+		return false, ctx.Err()
+	default:
+	}
+	s.mu.RLock()
+	defer s.mu.RUnlock()
+	_, ok := s.consumerOffsets[consumerKey(group, topic, partition)]
+	return ok, nil
+}
+
 // ListConsumerOffsets implements Store.ListConsumerOffsets.
 func (s *InMemoryStore) ListConsumerOffsets(ctx context.Context) ([]ConsumerOffset, error) {
 	select {
